@@ -624,6 +624,8 @@ def r15_16(ctx: Ctx, rule: str = "R15.16") -> None:
 
 
 def run(ctx: Ctx) -> None:
+    from . import c16 as _c16r
+    _c16r.r16_15(ctx, rule="R15.17")  # a rejected name leaves the archive readable: the root is no member name
     r15_16(ctx)
     r15_15(ctx)
     from . import c07 as _c07
